@@ -101,6 +101,8 @@ def run_unit(verif, name, pid, tier, scratch):
             hit = {d.item for d in Rc.diags if d.label == "canary"}
             for fid in expect:
                 O.canaries[fid] = fid in hit
+            for tn in Bc.template_canaries:
+                O.canaries["template:" + tn] = any(d.label == "canary:" + tn for d in Rc.diags)
             bad = [f for f, ok in O.canaries.items() if not ok]
             if bad and not O.failed:
                 O.undecided = f"vacuity: canary postcondition verified for {bad} (contradictory precondition or shim)"
